@@ -240,7 +240,11 @@ theorem match_np_all (sch : SchemaEval) (hs : ∀ a b, NP (sch a b)) :
   · -- $elemMatch over an array
     rename_i d op path hn he query hq multi arr hl hall ih
     unfold mOp; simp only [hl, hn, he, hq, hall, if_true, if_false, Bool.false_eq_true]
-    exact elemLoop_np _ ih _
+    apply elemLoop_np
+    intro x
+    split
+    · exact NP_notMatched
+    · exact ih x
   · -- $nor
     rename_i d pfx key value hk h1 h2 h3 ih
     unfold mExpr; simp only [hk, h1, h2, h3, if_true, if_false, Bool.false_eq_true]
